@@ -72,6 +72,9 @@ class Ev:
                 elif t[0] == "call" and "builtin_parsers" in t[1] or (t[0] == "call" and nm.startswith("parse_") and t[1].startswith("peginator::")):
                     kind = "body"
                     self.body.append((idx, ev))
+                elif t[0] == "call" and not t[1].startswith(USER_EXCLUDE) and not (t[3] or t[1]).startswith(USER_EXCLUDE) \
+                        and not mir.strip_generics(t[1]).startswith(inst.prefix + "::") and (t[3] or "") not in inst.fns:
+                    kind = "user"
             if kind:
                 self.order.append((idx, kind, ev))
 
@@ -159,6 +162,9 @@ class Cached:
                 for (idx, kind, ev) in E.order:
                     if idx > gi and kind in ("body", "insert", "cache-other", "loopinit"):
                         self.v("hit", "call=%s" % (short(ev[0][1]) if ev[0][0] == "call" else kind), "cache-hit path performs %s (the hit path must only copy the stored result)" % mir.show(ev[0])[:80], ev)
+                    if idx > gi and kind == "user":
+                        self.v("hit", "user-call=%s" % last(ev[0][1]), "cache-hit path calls the user function %s: a @check / hook of a cached rule runs again on every "
+                               "hit instead of once per position, and its verdict is not what was stored" % short(ev[0][1]), ev)
                 stored = mk("field", mk("downcast", g, "Some"), "0")
                 if l.kind != "return" or l.ret != stored:
                     self.v("value", "hit", "cache hit does not return a clone of the stored result: %s" % (mir.show(l.ret)[:120] if l.ret is not None else l.kind), gev)
